@@ -43,6 +43,8 @@ TRUSTED = [
 ]
 ASSUMPTIONS = [
     "files on disk that are neither a prefix of the published file nor of the declared size are the only 'wrong' files (no checksums exist: a right-sized file with other content cannot be told apart)",
+    "an .offset that was on disk before and is not older than the document is that document's table (a foreign table with a newer mtime cannot be told apart; the code itself never leaves one: theorem crash_states_keep_offset_table_sound, stream crash_then_rerun)",
+    "the declared document count is the line count of the published file",
     "declared sizes, when declared, are the real sizes of the published files (theorems); untruthful declarations are exercised and lead to explicit errors",
     "a response without Content-Length and without a declared size that ends cleanly is complete (HTTP cannot tell otherwise)",
     "documents are UTF-8 with \\n or \\r\\n terminators (a lone \\r inside a document makes the text-mode line count differ; C03 territory)",
@@ -512,6 +514,7 @@ class Paths:
         self.target = self.arch if fmt else self.doc
         self.tmp = self.target + ".tmp"
         self.off = self.doc + ".offset"
+        self.offtmp = self.doc + ".offset.tmp"
 
 
 def stamp(path, mtime, base=BASE):
@@ -538,6 +541,8 @@ def materialise(W, fmt, fs, P, base=BASE):
         put(P.tmp, W.arch_bytes(fmt, cid, size) if fmt else W.doc_bytes(cid, size), m)
     if fs["off"] is not None:
         put(P.off, off_bytes(W, fs["off"]), fs["off"][4])
+    if fs.get("offtmp") is not None:
+        put(P.offtmp, off_bytes(W, fs["offtmp"]), fs["offtmp"][4])
 
 
 def read_or_none(p):
@@ -551,7 +556,7 @@ def read_or_none(p):
 def observe(P):
     """bytes and mtimes of the four names"""
     out = {}
-    for k in ("doc", "arch", "tmp", "off"):
+    for k in ("doc", "arch", "tmp", "off", "offtmp"):
         p = getattr(P, k)
         if p is None:
             out[k] = None
@@ -715,6 +720,8 @@ def build_world_json(W, fmt, spec, fs, plan, ext, split=None):
     lines, dc, tbl, undec = {}, {}, {}, {}
 
     def add_doc(cid, size):
+        if size == 0:
+            cid = 0  # an empty file is a prefix of the published bytes (the model's canonical form)
         if (cid, size) in lines:
             return
         t, n, bad, entries = W.table(cid, size)
@@ -722,13 +729,15 @@ def build_world_json(W, fmt, spec, fs, plan, ext, split=None):
         ch = []
         for e in entries:
             ch += [len(e), 1]  # print(text) + print's end, as separate writes
-        if split and split[0] == "off":
+        if split and split[0] in ("off", "offtmp"):
             ch = split_at(ch, split[1])
         tbl[(cid, size)] = ch
         if bad:
             undec[(cid, size)] = True
 
     def add_arch(cid, size):
+        if size == 0:
+            cid = 0
         if not fmt or (cid, size) in dc:
             return
         out, content = probe_decompress(W, fmt, W.arch_bytes(fmt, cid, size), ext)
@@ -839,6 +848,14 @@ def compare_state(ctx, what, W, fmt, mfs, obs, clock0, t_run_ns, base=BASE):
         if mfs["doc"] is not None and obs["doc"] is not None:
             if (mo[4] >= mfs["doc"][2]) != (do[1] >= obs["doc"][1]):
                 bad.append("off: mtime order relative to document differs")
+    mt, dt = mfs.get("offtmp"), obs.get("offtmp")
+    if (mt is None) != (dt is None):
+        bad.append(f"offset.tmp: model {'absent' if mt is None else 'present'} / disk {'absent' if dt is None else 'present'}")
+    elif mt is not None:
+        if off_bytes(W, mt) != dt[0]:
+            bad.append(f"offset.tmp: bytes differ (model {mt[:4]}, disk {dt[0][:60]!r})")
+        if (mt[4] >= clock0) != (dt[1] >= t_run_ns):
+            bad.append("offset.tmp: written-in-this-run differs")
     if bad:
         ctx.diff(what, {"fs": mfs}, {"differences": bad})
     return not bad
@@ -897,7 +914,7 @@ def forced_hypotheses_violated(W, fmt, spec, fs0):
     return v
 
 
-def oracle(ctx, W, fmt, spec, fs0, plan, res, obs0, obs, fake, P, bundled=False, origin=""):
+def oracle(ctx, W, fmt, spec, fs0, plan, res, obs0, obs, fake, P, bundled=False, origin="", code_made_off=False):
     """the property's own statement on the implementation's observable output (independent of the model)"""
     excluded = input_class(W, fmt, spec, fs0)
     forced = forced_hypotheses_violated(W, fmt, spec, fs0)
@@ -919,17 +936,26 @@ def oracle(ctx, W, fmt, spec, fs0, plan, res, obs0, obs, fake, P, bundled=False,
         if problems:
             cls = "inside-hypotheses:unverified-document-accepted"
             if doc is not None and W.doc.startswith(doc[0]) and spec["usize"] is None:
-                cls = "empty-document-accepted-zero-lines-unchecked" if len(doc[0]) == 0 else "partial-document-accepted-size-undeclared"
+                if spec["nlines"] != W.table(0, W.dsize)[1]:
+                    cls = None  # the track declares a wrong document count: untruthful declaration
+                    ctx.count("excluded:untruthful-line-count")
+                else:
+                    cls = "partial-document-accepted-size-undeclared"
             elif doc is not None and (excluded or other_body or not W.doc.startswith(doc[0])):
                 # other content of an accepted size / untruthful declaration: outside the property's quantifier (no checksums exist)
                 cls = None
                 ctx.count("excluded:other-content-or-untruthful-size")
         elif tbl_bad:
             kept = obs0["off"] is not None and obs["off"] is not None and obs0["off"] == obs["off"]
-            if kept and "offset-valid-by-mtime-but-not-this-documents-table" in forced:
-                cls = "torn-or-foreign-offset-table-accepted-by-mtime"
-            elif kept and "format-restores-mtime" in forced:
+            doc_rewritten = obs0["doc"] != obs["doc"]
+            if kept and fmt in TAR_FAMILY and doc_rewritten:
                 cls = "stale-offset-table-kept-because-tar-extraction-restores-mtime"
+            elif kept and "offset-valid-by-mtime-but-not-this-documents-table" in forced:
+                if code_made_off:
+                    cls = "torn-offset-table-left-by-current-code"  # must not happen any more (atomic publish)
+                else:
+                    cls = None  # a foreign table with a newer mtime that was on disk before: nothing can tell (no checksum)
+                    ctx.count("excluded:foreign-offset-table-newer-than-document")
             else:
                 cls = "inside-hypotheses:offset-table-inconsistent"
         else:
@@ -979,7 +1005,7 @@ def final_name_check(ctx, W, fmt, declared, plan, before, after, origin=""):
             ctx.count("excluded:short-body-no-length-information")
 
 
-def execute(ctx, W, fmt, spec, fs0, plan, ext, bundled=False, root=None, base=BASE, origin="", sig_extra=()):
+def execute(ctx, W, fmt, spec, fs0, plan, ext, bundled=False, root=None, base=BASE, origin="", sig_extra=(), code_made_off=False):
     """materialise (unless root is given), run model and real code, compare, apply the direct oracle"""
     own = root is None
     if own:
@@ -999,12 +1025,14 @@ def execute(ctx, W, fmt, spec, fs0, plan, ext, bundled=False, root=None, base=BA
         compare_state(ctx, origin + "final-state", W, fmt, m["r"]["fs"], obs, fs0["clock"], t_run, base)
         if mres == "OUT-OF-FUEL":
             ctx.diff(origin + "fuel", "loop bound hit", res)
-        oracle(ctx, W, fmt, spec, fs0, plan, res, obs0, obs, fake, P, bundled, origin)
+        oracle(ctx, W, fmt, spec, fs0, plan, res, obs0, obs, fake, P, bundled, origin, code_made_off)
+        if obs["offtmp"] is not None and obs0["offtmp"] != obs["offtmp"]:
+            ctx.fail("offset-tmp-left-behind", origin + "a finished preparation left <document>.offset.tmp behind", None, res)
         # request arguments the model relies on (urllib3 must enforce Content-Length)
         for kw in fake.kwargs:
             if kw.get("enforce_content_length") is not True or kw.get("preload_content") is not False:
                 ctx.count("request-kwargs-unexpected")
-        nontrivial = any(fs0[k] is not None for k in ("doc", "arch", "tmp", "off")) or bool(plan)
+        nontrivial = any(fs0.get(k) is not None for k in ("doc", "arch", "tmp", "off", "offtmp")) or bool(plan)
         ctx.sig([m.get("tags"), res.split("-status-")[0], "manual" if fmt in MANUAL else "member" if fmt else "none", ext if fmt in MANUAL else "-",
                  state_class(W, fmt, spec, fs0), list(sig_extra)], nontrivial=nontrivial)
         ctx.count("res:" + res.split(":")[0])
@@ -1231,7 +1259,7 @@ def gen_scenario(rng, bundled=False, fmt_choice=None):
         clock[0] += rng.randrange(1, 4)
         return clock[0]
 
-    fs = {"doc": None, "arch": None, "tmp": None, "off": None, "clock": 0}
+    fs = {"doc": None, "arch": None, "tmp": None, "off": None, "offtmp": None, "clock": 0}
     d = gen_file(rng, W.doc, {1: W.doc_others[1], 2: W.doc_others[2]}, spec["usize"])
     if d is not None:
         fs["doc"] = d + [mt()]
@@ -1243,7 +1271,9 @@ def gen_scenario(rng, bundled=False, fmt_choice=None):
         src = full_arch if fmt else W.doc
         fs["tmp"] = [rng.randrange(0, len(src) + 1), 0, mt()]
     fs["off"] = gen_off(rng, W, fs["doc"], mt)
-    fs["clock"] = max([clock[0]] + [f[-1] for f in (fs["doc"], fs["arch"], fs["tmp"], fs["off"]) if f is not None]) + 1
+    if rng.random() < 0.12:  # left by a crash inside an earlier table build (or anything else under that name)
+        fs["offtmp"] = gen_off(rng, W, fs["doc"], mt)
+    fs["clock"] = max([clock[0]] + [f[-1] for f in (fs["doc"], fs["arch"], fs["tmp"], fs["off"], fs["offtmp"]) if f is not None]) + 1
     plan = gen_plan(rng, full_arch if fmt else W.doc, W.arch_others[fmt] if fmt else {1: W.doc_others[1], 2: W.doc_others[2]})
     ext = rng.choice(["off", "on", "on", "fail"]) if fmt in MANUAL else "off"
     return {"world": wid, "fmt": fmt, "spec": spec, "fs": fs, "plan": plan, "ext": ext, "bundled": bundled}
@@ -1292,11 +1322,12 @@ def run_twice(ctx, case):
             return  # already reported; the model state is not what is on disk
         fs1 = m["r"]["fs"]
         base2 = BASE + 1_000_000
-        for slot in ("doc", "arch", "tmp", "off"):
-            if fs1[slot] is not None and getattr(P, slot) and os.path.exists(getattr(P, slot)):
+        for slot in ("doc", "arch", "tmp", "off", "offtmp"):
+            if fs1.get(slot) is not None and getattr(P, slot) and os.path.exists(getattr(P, slot)):
                 stamp(getattr(P, slot), fs1[slot][-1], base2)
         execute(ctx, W, fmt, case["spec"], fs1, [list(a) for a in case["plan2"]], case["ext"], root=root, base=base2,
-                origin="second run after [%s]: " % res.split(":")[0], sig_extra=("second", res.split("-status-")[0]))
+                origin="second run after [%s]: " % res.split(":")[0], sig_extra=("second", res.split("-status-")[0]),
+                code_made_off=fs1["off"] is not None and fs1["off"] != case["fs"]["off"])
     finally:
         shutil.rmtree(root, ignore_errors=True)
 
@@ -1336,7 +1367,7 @@ def run_download(ctx, case):
     root = tempfile.mkdtemp(prefix="c14-dl-")
     try:
         P = Paths(root, fmt)
-        fs = {"doc": None, "arch": None, "tmp": case["tmp"], "off": None, "clock": 5}
+        fs = {"doc": None, "arch": None, "tmp": case["tmp"], "off": None, "offtmp": None, "clock": 5}
         fs["arch" if fmt else "doc"] = case["target"]
         materialise(W, fmt, fs, P)
         plan = [list(a) for a in case["plan"]]
@@ -1440,7 +1471,7 @@ class _Ctl:
 
     def slot_of(self, path):
         p = os.path.abspath(path)
-        for k in ("doc", "arch", "tmp", "off"):
+        for k in ("doc", "arch", "tmp", "off", "offtmp"):
             if getattr(self.P, k) and p == getattr(self.P, k):
                 return k
         return None
@@ -1456,7 +1487,7 @@ def crash_child(W, fmt, spec, plan, P, at, frac, bundled):
             os.close(r)
             fake_ref = [None]
             ctl = _Ctl(at, frac, P, wfd, fake_ref)
-            real_open, real_remove, real_rename = builtins.open, os.remove, os.rename
+            real_open, real_remove, real_rename, real_replace = builtins.open, os.remove, os.rename, os.replace
 
             def c_open(file, mode="r", *a, **kw):
                 slot = ctl.slot_of(file) if isinstance(file, str) else None
@@ -1477,7 +1508,12 @@ def crash_child(W, fmt, spec, plan, P, at, frac, bundled):
                 if ctl.slot_of(b_) and ctl.event(("rename",)):
                     ctl.die({"slot": ctl.slot_of(b_), "pos": 0, "torn": False, "op": "rename"})
 
-            builtins.open, os.remove, os.rename = c_open, c_remove, c_rename
+            def c_replace(a_, b_, *a, **kw):
+                real_replace(a_, b_, *a, **kw)
+                if ctl.slot_of(b_) and ctl.event(("replace",)):
+                    ctl.die({"slot": ctl.slot_of(b_), "pos": 0, "torn": False, "op": "replace"})
+
+            builtins.open, os.remove, os.rename, os.replace = c_open, c_remove, c_rename, c_replace
             orig_net = Net.__init__
 
             def grab(self, *a, **kw):
@@ -1541,7 +1577,7 @@ def same_file(W, fmt, slot, mf, of, clock0, t_run):
         return False
     if mf is None:
         return True
-    exp = off_bytes(W, mf) if slot == "off" else expected_bytes(W, fmt, slot, mf)
+    exp = off_bytes(W, mf) if slot in ("off", "offtmp") else expected_bytes(W, fmt, slot, mf)
     return exp == of[0] and (mf[-1] >= clock0) == (of[1] >= t_run)
 
 
@@ -1583,12 +1619,26 @@ def run_crash(ctx, case):
         states = [fs0] + m["r"]["trace"]
         match = None
         for s in states:
-            if all(same_file(W, fmt, slot, s[slot], obs[slot], fs0["clock"], t_run) for slot in ("doc", "arch", "tmp", "off") if slot != "arch" or fmt):
+            if all(same_file(W, fmt, slot, s.get(slot), obs[slot], fs0["clock"], t_run) for slot in ("doc", "arch", "tmp", "off", "offtmp") if slot != "arch" or fmt):
                 match = s
                 break
         if match is None:
             ctx.diff("crash state is not an intermediate state of the model", {"trace_len": len(states), "trace_tail": states[-3:]},
                      {"crash": info, "at": at, "events": events, "disk": {k: (None if v is None else [len(v[0]), v[1] >= t_run]) for k, v in obs.items()}})
+            # failing-input search without the model: does a re-run accept what this crash left?
+            off_by_code = obs["off"] is not None and obs["off"][1] >= t_run
+            for slot in ("doc", "arch", "tmp", "off", "offtmp"):
+                if obs[slot] is not None:
+                    os.utime(getattr(P, slot), ns=(obs[slot][1] - 10 ** 15, obs[slot][1] - 10 ** 15))
+            res2, _ = run_real(W, fmt, spec, [list(a) for a in case["plan2"]], "off", P)
+            after = observe(P)
+            if res2 == "ok" and after["doc"] is not None and after["off"] is not None:
+                bad = table_positions_ok(P, after["doc"][0], spec["nlines"])
+                if bad and off_by_code and after["off"][0] == obs["off"][0]:
+                    ctx.fail("torn-offset-table-left-by-current-code", "after-crash: the table left by the crashed run is accepted by the next run",
+                             "positions = linear skipping", {"crash": info, "table mismatches": bad[:3]})
+                elif len(after["doc"][0]) < W.dsize and W.doc.startswith(after["doc"][0]) and spec["usize"] == W.dsize:
+                    ctx.fail("inside-hypotheses:unverified-document-accepted", "after-crash: re-run accepted an unverified document", None, {"crash": info})
             return
         ctx.count("crash:slot-" + str(info.get("slot")) + ("-torn" if info.get("torn") else "") + ("-" + info["op"] if info.get("op") else ""))
         # 2. download atomicity at the crash instant: final name unchanged or a complete body
@@ -1598,21 +1648,22 @@ def run_crash(ctx, case):
         final_name_check(ctx, W, fmt, spec["csize"] if fmt else spec["usize"], plan, before, obs[tslot], "crash instant: ")
         # 3. re-run preparation on what the crash left (mtimes re-stamped in the past, order kept)
         base2 = BASE + 1_000_000
-        for slot in ("doc", "arch", "tmp", "off"):
-            f = match[slot]
+        for slot in ("doc", "arch", "tmp", "off", "offtmp"):
+            f = match.get(slot)
             if f is not None and getattr(P, slot):
                 stamp(getattr(P, slot), f[-1], base2)
         plan2 = [list(a) for a in case["plan2"]]
         execute(ctx, W, fmt, spec, match, plan2, "off", root=P.root, base=base2, origin="after-crash: ",
-                sig_extra=("crash", info.get("slot"), bool(info.get("torn")), info.get("op", "")))
+                sig_extra=("crash", info.get("slot"), bool(info.get("torn")), info.get("op", "")),
+                code_made_off=match["off"] is not None and match["off"] != fs0["off"])
     finally:
         shutil.rmtree(root, ignore_errors=True)
 
 
 STREAMS = [
-    Stream("prepare_states", gen_prepare, run_scenario, quick=640, thorough=20000, shards=16),
-    Stream("prepare_bundled", gen_bundled, run_scenario, quick=160, thorough=4000, shards=8),
-    Stream("prepare_twice", gen_twice, run_twice, quick=320, thorough=10000, shards=16),
-    Stream("net_download", gen_download, run_download, quick=800, thorough=30000, shards=8),
-    Stream("crash_then_rerun", gen_crash, run_crash, quick=320, thorough=10000, shards=16),
+    Stream("prepare_states", gen_prepare, run_scenario, quick=960, thorough=20000, shards=16),
+    Stream("prepare_bundled", gen_bundled, run_scenario, quick=240, thorough=4000, shards=8),
+    Stream("prepare_twice", gen_twice, run_twice, quick=480, thorough=10000, shards=16),
+    Stream("net_download", gen_download, run_download, quick=1200, thorough=30000, shards=8),
+    Stream("crash_then_rerun", gen_crash, run_crash, quick=480, thorough=10000, shards=16),
 ]
